@@ -49,6 +49,7 @@ class MicrodescriptorParser(object):
         waiting_w.add_transition(Transition(waiting_p, lambda x: x.startswith('w '), self._router_bandwidth))
         waiting_w.add_transition(Transition(waiting_r, ignorable_line, None))
         waiting_w.add_transition(Transition(waiting_s, lambda x: x.startswith('r '), self._router_begin))  # "w" lines are optional
+        waiting_w.add_transition(Transition(waiting_r, lambda x: x.startswith('p '), self._router_policy))  # ... also when a "p" line follows
         waiting_w.add_transition(Transition(waiting_r, lambda x: not x.startswith('w '), die('Expected "w " while parsing routers not "%s"')))
         waiting_w.add_transition(Transition(waiting_r, lambda x: x.strip() == '.', None))
 
